@@ -166,11 +166,11 @@ var keyAlgorithms map[string]cert.KeyAlgorithm = map[string]cert.KeyAlgorithm{
 	"P-384":           cert.P384,
 	"P-521":           cert.P521,
 	"brainpoolP256r1": cert.BrainpoolP256r1,
-	"brainpoolP384r1": cert.BrainpoolP256r1,
-	"brainpoolP512r1": cert.BrainpoolP256r1,
+	"brainpoolP384r1": cert.BrainpoolP384r1,
+	"brainpoolP512r1": cert.BrainpoolP512r1,
 	"brainpoolP256t1": cert.BrainpoolP256t1,
-	"brainpoolP384t1": cert.BrainpoolP256t1,
-	"brainpoolP512t1": cert.BrainpoolP256t1,
+	"brainpoolP384t1": cert.BrainpoolP384t1,
+	"brainpoolP512t1": cert.BrainpoolP512t1,
 }
 
 var sigAlgorithms map[string]cert.SignatureAlgorithm = map[string]cert.SignatureAlgorithm{
